@@ -39,6 +39,55 @@ def _ast_keywords(P: Project, mod: str, line: int, name: str) -> Set[str]:
     return out
 
 
+def fallback_extra_obligations(P, base, bfv, fb_class, pyd_cfg):
+    """Unknown members under the fallback backend (shared by C10-R2 and C09): every path of its constructor helper that
+    does not merge the leftover keys is taken only when there are none — or, if the backend reads `model_config['extra']`,
+    the mode it assumes for a class that sets nothing is the one the Pydantic-side base class sets (the models inherit
+    `extra='allow'` there, so a different default drops members that Pydantic keeps)."""
+    from ..paths import run_paths as _rp
+    from ..consteval import try_fold as _tf
+
+    params = [a.arg for a in bfv.args.args]
+    out = []
+
+    def ev(call, st, an):
+        if call_name(call).endswith(".update") and len(call.args) == 1 and ast.unparse(call.args[0]) in params:
+            return "merge:" + ast.unparse(call.args[0])
+        return None
+
+    an, o = _rp(bfv, event_of=ev, fallible=False)
+    merged_params = {e[6:] for st, _n in o.ret for e in st.events if e.startswith("merge:")}
+    skips = []
+    for st, node in o.ret:
+        if any(e.startswith("merge:") for e in st.events):
+            continue
+        if merged_params and any(f"not {p_}" in st.lits or f"len({p_}) == 0" in st.lits for p_ in merged_params):
+            continue
+        skips.append((st, node))
+    if not skips:
+        out.append(("fallback constructor: every path merges the leftover keys (or there are none)", True, bfv.lineno, ""))
+        return out
+    # the constructor skips the merge under some condition: it reads a mode; find the default it assumes
+    defaults = []
+    for n in ast.walk(fb_class):
+        if isinstance(n, ast.Call) and isinstance(n.func, ast.Attribute) and n.func.attr == "get" and n.args and isinstance(n.args[0], ast.Constant) and n.args[0].value == "extra":
+            defaults.append(n.args[1] if len(n.args) > 1 else ast.Constant(value=None))
+    for n in fb_class.body:
+        if isinstance(n, ast.AnnAssign) and isinstance(n.target, ast.Name) and "extra" in n.target.id.lower() and n.value is not None:
+            defaults.append(n.value)
+    want = pyd_cfg.get("extra")
+    if not defaults:
+        st, node = skips[0]
+        out.append(("fallback constructor: every path merges the leftover keys (or there are none)", False, node.lineno,
+                    f"a path returns without merging the leftover keys under {sorted(l[:50] for l in st.lits)[:5]}: unknown members of a spec-valid object are dropped by this backend and kept by Pydantic"))
+        return out
+    for d in defaults:
+        v = _tf(P, base, d)
+        out.append((f"fallback: the `extra` mode assumed for a class that sets none is the Pydantic base's ({want!r})", v == want, getattr(d, "lineno", bfv.lineno),
+                    f"the fallback assumes extra={v!r} where the class's model_config does not say, the Pydantic-side base class sets {want!r} and every model inherits it: models without a model_config of their own lose unknown members (e.g. _meta) under the fallback only"))
+    return out
+
+
 def check(P: Project, R: Report) -> None:
     R.rule("R1", "wire names at library serialisers (type-resolved): every model_dump/model_dump_json call in library code whose receiver type (mypy) is, or may contain, a class with an aliased field passes by_alias=True; Any-typed receivers are a frozen table with reasons")
     R.rule("R2", "unknown members survive: no model class sets `extra` to anything but 'allow'; the fallback's constructor keeps leftover keys and its dump iterates the instance dict")
@@ -197,6 +246,8 @@ def check(P: Project, R: Report) -> None:
     R.need(bfv is not None and "model_dump" in fbm and "_process_aliases" in fbm, "anchor: fallback constructor helpers not found")
     keeps = any(isinstance(c, ast.Call) and call_name(c).endswith(".update") and len(c.args) == 1 and ast.unparse(c.args[0]) in [a.arg for a in bfv.args.args] for c in walk_local(bfv))
     R.ob("R2", "fallback constructor merges leftover keys into the instance", keeps, f"{base.rel}:{bfv.lineno}", "")
+    for label, ok, lineno, detail in fallback_extra_obligations(P, base, bfv, fb, pyd_cfg):
+        R.ob("R2", label, ok, f"{base.rel}:{lineno}", detail)
     dump = fbm["model_dump"]
     iters = [n for n in walk_local(dump) if isinstance(n, ast.For) and ast.unparse(n.iter) == "self.__dict__.items()"]
     # … or a comprehension over the same items
